@@ -5,6 +5,7 @@ default.clifford) x wire labellings x device wire orders x measurement lists of 
 executed on default.mixed, reference.qubit, default.tensor (mps with max_bond_dim >= 2^(n/2), tn), default.clifford and
 null.qubit and compared with default.qubit on the same tape (1e-9; null.qubit: same nesting / shape / dtype kind).
 """
+import json
 import warnings
 
 import numpy as np
@@ -281,6 +282,8 @@ def run(ctx):
             else:
                 combos = [(LABS[3], DEVW[1])]
             wpool = pool if len(w) < 3 or alpha is COMMON else ["cliff"]
+            if quick and len(w) == 2:  # quick: null.qubit (shapes) and the Clifford words on default.mixed only up to length 1
+                wpool = [k for k in wpool if k != "null" and (alpha is COMMON or k == "cliff")]
             for lab, dw in combos:
                 for ml in singles:
                     add(w, lab, dw, ml, wpool)
@@ -291,6 +294,13 @@ def run(ctx):
                 for ml in singles:
                     add(w, LABS[0], DEVW[0], ml, pool, touch=False)
                     add(w, LABS[3], DEVW[1], ml, pool, touch=False)
+    seen, uniq = set(), []
+    for sp in specs:  # the device-specific extra words overlap between devices: keep every case once
+        k = json.dumps(sp, sort_keys=True)
+        if k not in seen:
+            seen.add(k)
+            uniq.append(sp)
+    specs = uniq
     ctx.enumerate(specs, axis="word-x-labels-x-device-wires-x-measurements", chunk=16)
     ctx.coverage["alphabet"] = {"common": [X.letter_code(l) for l in COMMON], "clifford": [X.letter_code(l) for l in CLIFFORD],
                                 "device_specific": {k: [X.letter_code(l) for l in v] for k, v in EXTRA.items()},
